@@ -96,6 +96,20 @@ impl World for WorldI {
             if i == 2 {
                 v[0] = 0xff; // asks the destination app to trap
             }
+            if i == 1 && rng.chance(1, 2) {
+                // data that begins like a tag, a selector or a length a "helpful" layer might strip or reinterpret:
+                // four zero bytes, 0x00000001, a 32-byte zero word
+                let mut t: Vec<u8> = match rng.below(3) {
+                    0 => vec![0, 0, 0, 0],
+                    1 => vec![0, 0, 0, 1],
+                    _ => vec![0u8; 32],
+                };
+                t.extend_from_slice(&v);
+                if rng.chance(1, 4) {
+                    t.truncate(4);
+                }
+                v = t;
+            }
             payloads.push(v);
         }
         payloads.push(vec![]); // Some(empty) must behave like no data
